@@ -18,13 +18,14 @@ class SFunc:
         self.log = []            # ('add_point', triplet) | ('add_constraint', c) | ('oracle', x, g, f) | ('value', x, f)
 
     def get_name(self): return None
-    def add_point(self, t): self.log.append(('add_point', t))
-    def add_constraint(self, c, name=None): self.log.append(('add_constraint', c))
+    # (parameter names are those of the real Function: a step may pass them by keyword)
+    def add_point(self, triplet): self.log.append(('add_point', triplet))
+    def add_constraint(self, constraint, name=None): self.log.append(('add_constraint', constraint))
 
-    def oracle(self, x):
+    def oracle(self, point):
         g, f = S.WORLD.point(), S.WORLD.expr()
-        self.log.append(('oracle', x, g, f))
-        self.__dict__.setdefault('_known', []).append((x, g, f))
+        self.log.append(('oracle', point, g, f))
+        self.__dict__.setdefault('_known', []).append((point, g, f))
         return g, f
 
     def _is_already_evaluated_on_point(self, point):
@@ -50,12 +51,12 @@ class SFunc:
         self.__dict__[attr] = v
         return v
 
-    def gradient(self, x, name=None): return self.oracle(x)[0]
+    def gradient(self, point, name=None): return self.oracle(point)[0]
     subgradient = gradient
 
-    def value(self, x, name=None):
+    def value(self, point, name=None):
         f = S.WORLD.expr()
-        self.log.append(('value', x, f))
+        self.log.append(('value', point, f))
         return f
 
     __call__ = value
